@@ -23,7 +23,7 @@ def run(res):
                 if "WARNING: DATA RACE" not in rep:
                     continue
                 n_reports += 1
-                lines = sorted(set(re.findall(r"(/repo/[^\s:]+:\d+)", rep)))[:4]
+                lines = sorted(set(re.findall(r"(%s/[^\s:]+:\d+)" % re.escape(lib.REPO), rep)))[:4]
                 key = " ".join(lines)
                 if key and key not in seen:
                     seen[key] = rep[:4000]
